@@ -6,6 +6,7 @@ sys.path.insert(0, '/verif')
 from vlib import facts, mir
 out = {}
 adts = {}
+params = {}
 for cfg in ('all', 'default'):
     f, info = facts.extract(cfg)
     for a in f['adts']:
@@ -15,6 +16,8 @@ for cfg in ('all', 'default'):
             continue
         sig = '(%s) -> %s' % (', '.join(mir.ty_str(mir.strip_regions(t)) for t in (fn.get('inputs') or [])), mir.ty_str(mir.strip_regions(fn.get('output'))) if fn.get('output') else '?')
         out[fn['path']] = sig
+        params[fn['path']] = [fn['mir']['locals'][i].get('name') for i in range(1, fn['mir']['argc'] + 1)]
 out['__adts__'] = adts
+out['__params__'] = params
 json.dump(out, open('/verif/vlib/baseline_fns.json', 'w'), indent=0, sort_keys=True)
 print(len(out), 'functions')
